@@ -356,3 +356,35 @@ func (c *c7obj) BadC7Step(d int) int {
 	c.mu.Unlock()
 	return v
 }
+
+// ---- C6 (keyed update) -------------------------------------------------------------------------------------------------
+
+type c6reg struct {
+	mu     sync.Mutex
+	logs   map[uint32]*c7obj
+	counts map[uint32]int
+}
+
+// GoodC6Keyed updates the per-stream counts while it still holds the lock it ranged the registry under.
+func (r *c6reg) GoodC6Keyed() {
+	r.mu.Lock()
+	for ssrc := range r.logs {
+		r.counts[ssrc]++
+	}
+	r.mu.Unlock()
+}
+
+// BadC6Keyed ranges over a snapshot and re-locks per stream: a stream unbound in between gets its count re-created.
+func (r *c6reg) BadC6Keyed() {
+	r.mu.Lock()
+	snap := make(map[uint32]*c7obj, len(r.logs))
+	for k, v := range r.logs {
+		snap[k] = v
+	}
+	r.mu.Unlock()
+	for ssrc := range snap {
+		r.mu.Lock()
+		r.counts[ssrc]++
+		r.mu.Unlock()
+	}
+}
